@@ -127,6 +127,21 @@ let rec last_at (s : n list) : n list =
 let cte_s = function SevenBit -> "7bit" | EightBit -> "8bit" | QuotedPrintable -> "quoted-printable" | Base64 -> "base64" | Binary -> "binary"
 let cte_of = function "7bit" -> SevenBit | "8bit" -> EightBit | "quoted-printable" -> QuotedPrintable | "base64" -> Base64 | _ -> Binary
 
+(* oracle table for several domains: entries dhex,idna|!,ip1,ip2 joined by ';' *)
+let mk_oracle_table (tbl : Stdlib.String.t) =
+  let entries = List.map (fun e -> match split ',' e with
+    | [d; idn; ip1; ip2] -> (ustr_of_hex d, (if idn = "!" then None else Some (ustr_of_hex idn)), ip1 = "1", ip2 = "1")
+    | _ -> failwith "oracle entry") (split ';' tbl) in
+  let idna x = (try let (_, a, _, _) = List.find (fun (d, _, _, _) -> d = x) entries in a with Not_found -> None) in
+  let ip_ok x =
+    List.exists (fun (d, a, i1, i2) ->
+      (i1 && x = strip_brackets d) || (match a with Some d' -> i2 && x = strip_brackets d' | None -> false)) entries in
+  (idna, ip_ok)
+let opt_hex = function None -> "!" | Some n -> uhex n
+let mb_s (m : mailbox) = opt_hex m.mb_name ^ "," ^ uhex m.mb_email
+let mberr_s = function MInvalidInput -> "InvalidInput" | MInvalidUser -> "InvalidUser" | MInvalidDomain -> "InvalidDomain"
+let raw_s (n, (u, d)) = opt_hex n ^ "," ^ uhex u ^ "," ^ uhex d
+
 let dispatch (f : Stdlib.String.t list) : Stdlib.String.t =
   match f with
   | ["codec.encode"; st; m] ->
@@ -199,6 +214,44 @@ let dispatch (f : Stdlib.String.t list) : Stdlib.String.t =
   | ["spec.b64_body_decode"; b] -> (match b64_body_decode (unhex b) with Some o -> "some\t" ^ hex o | None -> "none")
   | ["spec.cte_ok"; e; b] ->
       b01 (match cte_of e with SevenBit -> sevenbit_ok (unhex b) | QuotedPrintable -> qp_lines_ok (unhex b) | Base64 -> b64_lines_ok (unhex b) | _ -> true)
+  | ["mbox.display"; n; e] ->
+      (match utf8_decode (unhex e), (if n = "!" then Some None else (match utf8_decode (unhex n) with Some x -> Some (Some x) | None -> None)) with
+       | Some e, Some n -> (match show_mailbox { mb_name = n; mb_email = e } with Some o -> "ok\t" ^ uhex o | None -> "fmt-error")
+       | _, _ -> "invalid-utf8")
+  | ["mboxes.display"; ms] ->
+      let parse_mb s = match split ',' s with
+        | [n; e] -> { mb_name = (if n = "!" then None else Some (ustr_of_hex n)); mb_email = ustr_of_hex e }
+        | _ -> failwith "mb" in
+      (match show_mailboxes (List.map parse_mb (split ';' ms)) with Some o -> "ok\t" ^ uhex o | None -> "fmt-error")
+  | ["mbox.parse_raw"; h] ->
+      (match utf8_decode (unhex h) with
+       | None -> "invalid-utf8"
+       | Some s -> (match parse_mailbox_raw s with Some x -> "some\t" ^ raw_s x | None -> "none"))
+  | ["mboxes.parse_raw"; h] ->
+      (match utf8_decode (unhex h) with
+       | None -> "invalid-utf8"
+       | Some s -> (match parse_mailbox_list_raw s with Some xs -> "some\t" ^ String.concat ";" (List.map raw_s xs) | None -> "none"))
+  | ["mbox.parse"; h; tbl] ->
+      (match utf8_decode (unhex h) with
+       | None -> "invalid-utf8"
+       | Some s -> let (idna, ip_ok) = mk_oracle_table tbl in
+                   (match mailbox_from_str alnum_fn idna ip_ok s with
+                    | Ok m -> "ok\t" ^ mb_s m | Err e -> "err\t" ^ mberr_s e | Panic -> "panic"))
+  | ["mboxes.parse"; h; tbl] ->
+      (match utf8_decode (unhex h) with
+       | None -> "invalid-utf8"
+       | Some s -> let (idna, ip_ok) = mk_oracle_table tbl in
+                   (match mailboxes_from_str alnum_fn idna ip_ok s with
+                    | Ok ms -> "ok\t" ^ String.concat ";" (List.map mb_s ms) | Err e -> "err\t" ^ mberr_s e | Panic -> "panic"))
+  | ["hdrs.ops"; ops] ->
+      let parse_op s = match split ',' s with
+        | ["set"; n; v] -> HSet (unhex n, unhex v)
+        | ["get"; n] -> HGet (unhex n)
+        | ["remove"; n] -> HRemove (unhex n)
+        | _ -> failwith "hop" in
+      let (rs, hs) = run_hops (List.map parse_op (split ';' ops)) [] in
+      let r_s = function HRNone -> "none" | HRSome v -> "some:" ^ hex v | HRUnit -> "unit" | HRPanic -> "panic" in
+      String.concat ";" (List.map r_s rs) ^ "\t" ^ hex (show_headers hs)
   | fn :: _ -> "UNKNOWN-FN " ^ fn
   | [] -> "EMPTY"
 
